@@ -136,7 +136,7 @@ def _is_dead(s) -> bool:
         return False
 
 
-def snapshot(world, need_rho: bool = True, max_dim: int = 4096) -> Snapshot:
+def snapshot(world, need_rho: bool = True, max_dim: int = 3072) -> Snapshot:
     import jax.numpy as jnp  # noqa: F401
 
     name_of = {id(s): n for n, s in world.subs}
